@@ -90,6 +90,21 @@ def c16_job(job):
         env = rec.envs[1]
         rec.emit(dict(ev="plan_end", env=1, term=bool(ev and ev.get("ev") == "step" and ev["term"]),
                       goal=bool(env.goal_reached()), n=len(plan)))
+        # the same plan on a second environment, interrupted three times by the helpers that are documented as not
+        # touching the environment (initial-state generators, goal query, action mask)
+        rec.create(2, scn, True, True, False)
+        rec.reset(2)
+        ev = None
+        stops = {len(plan) // 4, len(plan) // 2, (3 * len(plan)) // 4}
+        for i_, k in enumerate(plan):
+            if i_ in stops and i_ > 0:
+                rec.init_states(2)
+                rec.goal(2, None)
+                rec.mask(2)
+            a = pyref.flat_action(cs, k)
+            ev = rec.step(2, ("int", k - 1), pyref.draw_for(a["prob"], True, 1))
+        rec.emit(dict(ev="plan_end", env=2, term=bool(ev and ev.get("ev") == "step" and ev["term"]),
+                      goal=bool(rec.envs[2].goal_reached()), n=len(plan)))
         rec.close()
         res["events"] = rec.i
         mon = os.path.join(wd, "mon")
